@@ -45,6 +45,7 @@ import (
 	"os"
 	"os/exec"
 	"path/filepath"
+	"regexp"
 	"runtime"
 	"strconv"
 	"strings"
@@ -937,8 +938,25 @@ func c16ConcOpt(rng *rand.Rand, kind string, recs []c16Pair) []string {
 	case "long":
 		return []string{"long"}
 	case "a": // attribute regexps on keys holding non-string values (never the statistics map)
-		k1 := pick([]string{"count", "k", "a", "seq_length"})
-		out := []string{"a=" + hs(k1) + ":" + hs(pick(c16ConcAttrRes))}
+		// the verdict must depend on the value: among the records holding a non-string value under the key, 25..75% match
+		k1, re1 := "", ""
+		for try := 0; try < 40; try++ {
+			k1, re1 = pick([]string{"count", "k", "a", "seq_length"}), pick(c16ConcAttrRes)
+			rx := regexp.MustCompile(re1)
+			n, m := 0, 0
+			for _, p := range recs {
+				if v, ok := p.r.attrs[k1]; ok && v.kind != 's' {
+					n++
+					if rx.MatchString(v.shown()) {
+						m++
+					}
+				}
+			}
+			if n > 0 && 4*m >= n && 4*m <= 3*n {
+				break
+			}
+		}
+		out := []string{"a=" + hs(k1) + ":" + hs(re1)}
 		if rng.Intn(2) == 0 {
 			k2 := pick([]string{"b", "c", "taxid", "sample"})
 			out = append(out, "a="+hs(k2)+":"+hs(pick([]string{"1", "^[0-9tf]", ".", "[a-z0-9]$", "2|5|A"})))
@@ -1001,7 +1019,7 @@ func c16GenConc(rng *rand.Rand, tier string, emit func(string)) {
 	// every family of closures in every run: attribute regexps, expressions, the other selection criteria, approximate
 	// pattern + taxonomy (paired), edit workers with expressions and --cut, library workers, the classifier
 	specs := []spec{
-		{op: "grep", kinds: []string{"a"}, some: []string{"v", "long", "C"}, nsome: 1, n: 160, g: 8, r: 40},
+		{op: "grep", kinds: []string{"a"}, some: []string{"v", "long", "C"}, nsome: 1, n: 160, g: 8, r: 100},
 		{op: "grep", kinds: []string{"p"}, some: sel, nsome: 2, n: 160, g: 8, r: 25},
 		{op: "grep", kinds: []string{"ap"}, some: []string{"r", "i", "rank", "A", "a"}, nsome: 1, n: 90, g: 8, r: 15, paired: true},
 		{op: "annot", kinds: []string{"a", "tag", "cut"}, some: edits, nsome: 2, n: 140, g: 8, r: 20},
